@@ -18,7 +18,8 @@ Rows are returned per message (the database table is the concatenation).
 
 Abstractions: tag values are opaque tokens (the harness prints the Python value canonically; `"s:-"` is the
 empty string, needed for the Mark rule); tick_time / interval are finite floats, modelled as `Rat`; unit,
-formatted value, direction, simulated flag, the METHOD_STATUS → interrupted_by_error rule, publisher calls and
+formatted value, direction, simulated flag, publisher calls, the METHOD_STATUS → interrupted_by_error rule (the
+flag is not read by the persistence code; "Method Status" is a tag like any other here) and
 `store_new_tag_info` (unit/type columns of the entry) are not modelled; a run is started at most once per run id
 (duplicated RunStartedMsg is C30's subject).  `Row.src` is a ghost field (the tick_time the value was reported
 with, before `_persist_tag_values` overwrites it with the batch time) used only in statements, never printed.
@@ -143,6 +144,7 @@ inductive Op where
   | stopRun                                                    -- RunStoppedMsg for the active run
   | tags (msgRun : Option Nat) (ups : List Update)             -- TagsUpdatedMsg(run_id = ordinal or None)
   | reconnect                                                  -- engine_disconnected, then RegisterEngineMsg
+  | dupStart                                                   -- the RunStartedMsg of the active run once more
 
 def step (s : State) : Op → State × Out
   | .uod readings interval => ({ s with readings := readings, interval := interval }, .skipped)
@@ -150,6 +152,10 @@ def step (s : State) : Op → State × Out
     -- run_started: (the previous run, if any, is stored and reset;) run_data = RunData.empty; create_plot_log
     ({ s with run := some (s.nextRun, none), nextRun := s.nextRun + 1, entries := s.readings }, .skipped)
   | .stopRun => ({ s with run := none }, .skipped)
+  | .dupStart =>
+    -- run_started, branch "same id as the current run": run_data (and with it latest_persisted_tick_time) stays,
+    -- create_plot_log finds the plot log and does nothing.  (Without an active run the harness sends nothing.)
+    (s, .skipped)
   | .reconnect =>
     -- a new EngineData: nothing known about tags, readings or the interval; the run id comes back from the
     -- RecentEngines row, latest_persisted_tick_time does not
